@@ -177,6 +177,14 @@ func runAllGo(srcs []string, run *common.Run) []string {
 		wg.Wait()
 		trimGoCache()
 	}
+	// a compiled program that timed out on a loaded machine is run once more, alone and with a longer limit
+	for i := range res {
+		if strings.HasPrefix(res[i], "timeout~") {
+			if gr, err := runGoBatchPrivate(srcs[i:i+1], 120*time.Second); err == nil {
+				res[i] = goObs(gr[0])
+			}
+		}
+	}
 	return res
 }
 
